@@ -152,7 +152,17 @@ Sltiu = make_i("sltiu", 11)
 Andi = make_i("andi", 12)
 Ori = make_i("ori", 13)
 Xori = make_i("xori", 14)
-Lui = make_i("lui", 15)
+
+
+class Lui(MipsInstruction):
+    """Load upper immediate: lui rt, imm (bits 25:21 are zero)"""
+
+    tokens = [MipsIToken]
+    rt = Operand("rt", MipsRegister, write=True)
+    imm = Operand("imm", int)
+    syntax = Syntax(["lui", " ", rt, ",", " ", imm])
+    patterns = {"opcode": 15, "rs": 0, "rt": rt, "imm": imm}
+
 
 Sllv = make_r("sllv", 0, 4, shift=True)
 Srlv = make_r("srlv", 0, 6, shift=True)
@@ -445,7 +455,7 @@ def pattern_const32(context, tree):
     upper = (value >> 16) & 0xFFFF
     lower = value & 0xFFFF
     d = context.new_reg(MipsRegister)
-    context.emit(Lui(d, registers.r0, upper))
+    context.emit(Lui(d, upper))
     context.emit(Ori(d, d, lower))
     return d
 
